@@ -77,8 +77,9 @@ abbrev SideSort (α : Type) := List α → Res (List Nat)
 def sideStable (le : α → α → Bool) : SideSort α := fun keys => pure (stablePerm le keys)
 
 /-- `sort_unstable_by` with a comparator that does not panic: *some* permutation `p` (a model input, constrained by std's
-    contract: a permutation that orders the keys) -/
-def sideGiven (p : List Nat) : SideSort α := fun _ => pure p
+    contract: a permutation of the indices — a `p` that is not one stands for nothing std can return, and is rejected) -/
+def sideGiven (p : List Nat) : SideSort α := fun keys =>
+  if p.Perm (List.range keys.length) then pure p else throw .panic
 
 /-- `collect::<Box<[(usize, &T)]>>()` of `n` pairs (16 bytes each, whatever `T` is): "capacity overflow" panic beyond
     `sideLimit = isize::MAX / 16`.  (Allocation failure below that aborts: outside the model.) -/
